@@ -170,7 +170,12 @@ class Runtime:
             self.args[a] = V("a", a)
         return self.args[a]
 
-    def val(self, v: int) -> V:
+    # values that are Python's own singletons (a body may return them like any other value)
+    SINGLETONS = {71: NotImplemented, 72: False, 73: Ellipsis, 74: 0, 75: ""}
+
+    def val(self, v: int) -> Any:
+        if v in self.SINGLETONS:
+            return self.SINGLETONS[v]
         if v not in self.vals:
             self.vals[v] = V("v", v)
         return self.vals[v]
@@ -242,6 +247,9 @@ class Runtime:
         return 0
 
     def vid(self, x: Any) -> int:
+        for sv, sx in self.SINGLETONS.items():
+            if x is sx and type(x) is type(sx):
+                return sv
         o = self.oid(x) if x is not None and not isinstance(x, V) else 0
         if o:
             return 100 + o
@@ -538,6 +546,12 @@ class Runtime:
             raise
         rv = con["rv"]
         owner_async = bool(owner) and _h.prog["fn"][owner - 1]["async"]
+        if rv == "raises":
+            # the condition cannot be evaluated for this call (it is only defined when an earlier one holds)
+            exc = FAULT_CLASSES["Exception"]("cond{}".format(c))
+            _h.faults[900 + c] = exc
+            _h.emit("cond.out", c, o, a, 900 + c, "Exception")
+            raise exc
         if rv == "coro" and not owner_async:
             _h.emit("cond.out", c, o, a, 2, "ret")
             coro = _h._dummy_coro()
